@@ -129,6 +129,26 @@ pub fn gen(seed: u64, thorough: bool, only: Option<u64>, out: &mut Out) {
       obs,
       verdict,
     );
+    // (2'') the same shares handed over through iterator adaptors (filter, skip_while, flat_map): same result
+    if expect_ok && g % 2 == 0 {
+      let want = recover_obs(&picked);
+      let via: Vec<(&str, Option<bool>)> = vec![
+        ("filter", guarded(|| recover(picked.iter().filter(|_| true)).map(|c| c.get_message()).ok() == Some(m.clone()))),
+        ("skip_while", guarded(|| recover(picked.iter().skip_while(|_| false)).map(|c| c.get_message()).ok() == Some(m.clone()))),
+        ("flat_map", guarded(|| recover(picked.chunks(1).flat_map(|c| c.iter())).map(|c| c.get_message()).ok() == Some(m.clone()))),
+      ];
+      let mut v = Ok(());
+      for (name, got) in via {
+        if want.starts_with("ok") && got != Some(true) {
+          v = Err(format!("recovery from the same {} shares handed over through `{}` does not return the message", picked.len(), name));
+        }
+      }
+      out.case(
+        format!("adss.recover {}", sel.iter().map(|&i| hex(&enc[i])).collect::<Vec<_>>().join(" ")),
+        want,
+        v,
+      );
+    }
     // (2') the authentication tag altered in TWO bytes by the same mask (every byte of the tag must count, not a
     // digest of them): never accepted
     if expect_ok {
